@@ -57,6 +57,9 @@ c16!(c16_msg_read_size4, 12, read_instr_never_panics::<8>(&MsgHooks { language: 
 //@ C16 c16_label_absolute_no_panic quick default default label decoding (MSG, ANM, STD TH095+) of an arbitrary 32-bit jump argument never panics
 c16!(c16_label_absolute_no_panic, 2, decode_label_never_panics(&MsgHooks { language: LanguageKey::Msg }));
 
+//@ C16 c16_msg_read_size3 quick default MSG: read_instr on arbitrary header bytes whose size field is 3 (3 argument bytes: not a multiple of 4) returns Ok or Err and never panics (no underflow, no failed assert, no out-of-range read)
+c16!(c16_msg_read_size3, 12, read_instr_never_panics::<7>(&MsgHooks { language: LanguageKey::Msg }, 3, 1, 3));
+
 #[cfg(kani)]
 #[path = "/verif/.cache/playback/msg.rs"]
 mod playback;
